@@ -36,10 +36,19 @@ structure Key where
     (the stamp comparison is separate) -/
 def Selector.sameSet (a b : Selector) : Bool := a.isSuperset b && b.isSuperset a
 
+/-- `Selector::same_sequence`: the same names in the same order -/
+def Selector.sameSeq : Selector → Selector → Bool
+  | .all, .all => true
+  | .some a, .some b => a == b
+  | _, _ => false
+
 /-- with a partition the selection has to be the same one: a partition is a slice of the tuple sequence left *after*
-    selection (`C10.count_not_commute`), so a wider run's slice does not contain a narrower run's -/
+    selection (`C10.count_not_commute`), so a wider run's slice does not contain a narrower run's. The sequence lists the builders in
+    the order they were GIVEN (`selectedBuilders`) and the apps in definition order (`selectedBins` filters): the builders must be the
+    same list, the apps the same set (fix 0b669f6: the builders used to be compared as sets, so `-b x,y -P count:1/2` was served
+    from the cache of `-b y,x -P count:1/2`) -/
 def partitionOk (r k : Key) : Bool :=
-  k.partition.isNone || (Selector.sameSet r.builders k.builders && Selector.sameSet r.apps k.apps)
+  k.partition.isNone || (Selector.sameSeq r.builders k.builders && Selector.sameSet r.apps k.apps)
 
 def keyValid (r k : Key) : Bool :=
   r.uuid == k.uuid && r.partition == k.partition && r.builders.isSuperset k.builders && r.apps.isSuperset k.apps
